@@ -129,6 +129,30 @@ def check(ctx):
     asr = [s.stmt["e"][1] for s in all_sites(pr, P) if s.expr is None and s.stmt.get("k") == "expr" and is_expr(s.stmt.get("e")) and s.stmt["e"][0] == "asserted"]
     ctx.ob("time/promote-source", "TYPESTATE", "PromoteCandidateReady asserts that its argument is CANDIDATE_DELAYED",
            any(st_atom(r"\w+", "CANDIDATE_DELAYED").fullmatch(F.fshow(F.to_formula(a))) for a in asr), pr.where)
+    # transitions inside PromoteCandidateReady: only a CANDIDATE_BEST neighbour is displaced (never a REQUESTED one), and the promoted
+    # announcement becomes BEST only when no selected announcement of the txhash exists or it displaces that CANDIDATE_BEST
+    prsub = naming(pr, P)
+    PA = {"NEXT_BEST": st_atom(r".+", "CANDIDATE_BEST"), "NEXT_DONE": st_atom(r".+", "COMPLETED"),
+          "NEXT_END": re.compile(r"(.+ == m_index\.get\(\)\.end\(\)|m_index\.get\(\)\.end\(\) == .+)"),
+          "SAME": re.compile(r".+\.m_gtxid\.ToUint256\(\) == .+\.m_gtxid\.ToUint256\(\)")}
+    npm = 0
+    for s, tgt, itx, extra in all_mods["PromoteCandidateReady"]:
+        own = F.mk_and([g.formula(prsub) for g in s.guards if g.kind in ("if", "sc")])
+        fb, mp, un = F.bind_atoms(own, PA)
+        arg = show(itx)
+        if tgt == "CANDIDATE_READY" and arg != "it":
+            npm += 1
+            cex = F.counterexample(fb, F.parse("NEXT_BEST"))
+            ctx.ob("promote/displace-only-best@L%s" % s.line, "MPT", "PromoteCandidateReady moves the neighbouring announcement back to CANDIDATE_READY only if that neighbour is "
+                   "CANDIDATE_BEST (an in-flight REQUESTED announcement is never displaced by a promotion)", cex is None, s.where,
+                   None if cex is None else {"guard": F.fshow(own)[:300], "counterexample": cex})
+        elif tgt == "CANDIDATE_BEST":
+            npm += 1
+            cex = F.counterexample(fb, F.parse("NEXT_END || !SAME || NEXT_DONE || NEXT_BEST"))
+            ctx.ob("promote/best-only-if-unselected@L%s" % s.line, "MPT", "PromoteCandidateReady makes the announcement CANDIDATE_BEST only if the following announcement in the by-txhash "
+                   "order is absent, of another txhash or COMPLETED (nothing selected for this txhash) or is the CANDIDATE_BEST it replaces", cex is None, s.where,
+                   None if cex is None else {"guard": F.fshow(own)[:300], "counterexample": cex})
+    ctx.floor("PromoteCandidateReady guarded transitions", npm, 3)
     dem = [s for s in callers.get("SetTimePoint", [])]
     for s in dem:
         fb, mp, un = F.bind_atoms(s.formula(tsub), {"SELECTABLE": re.compile(r".+\.IsSelectable\(\)"), "FUTURE": re.compile(r"now < .+\.m_time")})
@@ -268,6 +292,20 @@ def check(ctx):
     dp = fns["DisconnectedPeer"]
     okf = len(sites(fg, lambda e: e[0] == "mcall" and e[1] == IMPL + "Erase", P)) == 1 and not all_mods["ForgetTxHash"]
     ctx.ob("forget/forget-txhash", "TYPESTATE", "ForgetTxHash only erases (it never changes a state)", okf, fg.where)
+    ecall = {n: sites(f, lambda e: e[0] == "mcall" and e[1] == IMPL + "Erase", P) for n, f in fns.items()}
+    ew = sorted(n for n, ss in ecall.items() if ss)
+    ctx.ob("forget/erase-callers", "WHO-MAY-CALL", "announcements are erased only by MakeCompleted (all of a txhash, when the last live one completes), ForgetTxHash (all of a txhash) "
+           "and DisconnectedPeer", ew == ["DisconnectedPeer", "ForgetTxHash", "MakeCompleted"], None, {"callers": ew})
+    dsub = naming(dp, P)
+    for s in ecall.get("DisconnectedPeer", []):
+        MC = re.compile(r"TxRequestTracker::Impl::MakeCompleted\((.+)\)")
+        fb, mp, un = F.bind_atoms(s.formula(dsub), {"COMPLETED_FIRST": MC})
+        cex = F.counterexample(fb, F.parse("COMPLETED_FIRST"))
+        mcs = [m.group(1) for k in F.atoms(s.formula(dsub)) for m in [MC.fullmatch(k)] if m]
+        same = len(mcs) == 1 and show(F.expand(call_args(s.expr)[0], dsub)) in mcs[0]
+        ctx.ob("forget/disconnect-completes-first@L%s" % s.line, "MPT", "DisconnectedPeer erases a single announcement only after MakeCompleted ran for that same announcement and returned "
+               "true (so the last-live-announcement test - and with it forgetting the transaction - is never skipped)", cex is None and same, s.where,
+               None if cex is None and same else {"guard": F.fshow(s.formula(dsub))[:300], "counterexample": cex, "completed": mcs})
     okd = len(sites(dp, lambda e: e[0] == "mcall" and e[1] == IMPL + "MakeCompleted", P)) >= 1 and len(sites(dp, lambda e: e[0] == "mcall" and e[1] == IMPL + "Erase", P)) >= 1 and not all_mods["DisconnectedPeer"]
     ctx.ob("forget/disconnect", "TYPESTATE", "DisconnectedPeer removes the peer's announcements through MakeCompleted/Erase only", okd, dp.where)
     rr = fns["ReceivedResponse"]
